@@ -31,6 +31,10 @@ type Op struct {
 	Pass      string `json:"pass,omitempty"`
 	Refresh   string `json:"refresh,omitempty"`
 	Access    string `json:"access,omitempty"`
+	// Ann (oci tag): the descriptor carries annotations - one map object per digest,
+	// shared by every tag of that content, as when a caller tags one descriptor
+	// value under several names
+	Ann bool `json:"ann,omitempty"`
 }
 
 // Content returns the bytes of a push.
